@@ -498,6 +498,7 @@ func ruleMigrateRound2(c *Ctx) {
 		ruleAliasOmission(c, "C14.14")
 		ruleSourceImportKeys(c, "C14.15")
 		ruleChanDirMapping(c, "C14.16", migPkg)
+		ruleConverterHomeIsWirePackage(c, "C14.17")
 		ruleLoopsMakeProgress(c, "C14.12", migPkg)
 		ruleInspectVisitsEverything(c, "C14.11")
 	}
